@@ -106,7 +106,7 @@ class Interp:
             vals = [it[i] for it in its]
             if any(isinstance(v, Poison) for v in vals):
                 o[i] = Poison("propagated"); continue
-            if any(isinstance(v, NonFinite) for v in vals) and getattr(f, "__name__", "") not in ("sel",) and not getattr(self, "_nf_ok", False):
+            if any(isinstance(v, NonFinite) for v in vals) and getattr(f, "__name__", "") not in ("sel", "fmax", "fmin") and not getattr(self, "_nf_ok", False):
                 raise Unsupported(f"arithmetic on non-finite constant in real mode ({getattr(f, '__name__', f)})")
             o[i] = f(*vals)
         return out
@@ -181,13 +181,30 @@ class Interp:
         return {"lt": lambda a, b: a < b, "le": lambda a, b: a <= b, "gt": lambda a, b: a > b,
                 "ge": lambda a, b: a >= b, "eq": lambda a, b: a == b, "ne": lambda a, b: a != b}[op](x, y)
 
+    def _nf_minmax(self, x, y, is_max):
+        """max/min against an infinite constant in real mode"""
+        a, b = (x, y) if isinstance(x, NonFinite) else (y, x)      # a is the non-finite one
+        if math.isnan(a.x):
+            raise Unsupported("max/min with a NaN constant in real mode")
+        if isinstance(b, NonFinite):
+            if math.isnan(b.x):
+                raise Unsupported("max/min with a NaN constant in real mode")
+            return NonFinite(max(a.x, b.x) if is_max else min(a.x, b.x))
+        if (a.x > 0) == is_max:
+            return a          # max(+inf, b) = +inf ; min(-inf, b) = -inf
+        return b              # max(-inf, b) = b    ; min(+inf, b) = b
+
     def fmax(self, x, y):
+        if isinstance(x, NonFinite) or isinstance(y, NonFinite):
+            return self._nf_minmax(x, y, True)
         if self.mode == "fp32" and z3.is_fp(x):
             # jax max propagates NaN
             return z3.If(z3.fpIsNaN(x), x, z3.If(z3.fpIsNaN(y), y, z3.If(z3.fpGEQ(x, y), x, y)))
         return z3.If(x >= y, x, y)
 
     def fmin(self, x, y):
+        if isinstance(x, NonFinite) or isinstance(y, NonFinite):
+            return self._nf_minmax(x, y, False)
         if self.mode == "fp32" and z3.is_fp(x):
             return z3.If(z3.fpIsNaN(x), x, z3.If(z3.fpIsNaN(y), y, z3.If(z3.fpLEQ(x, y), x, y)))
         return z3.If(x <= y, x, y)
